@@ -75,7 +75,8 @@ type pair struct {
 	// dirs: which directions the observations of this pair try (0 both, 1 A->B only, 2 B->A only). Observing costs
 	// sequence numbers: a router that is only ever observed as a receiver has never sent anything under its keys,
 	// which is a state of its own (one-way flows) that two-way observations would never leave alone.
-	dirs int
+	dirs  int
+	stale []staleFrame
 }
 
 var pairSeq int
@@ -282,6 +283,16 @@ func (p *pair) observe() obs {
 		return ys != nil && g.Unseal(ys) == nil
 	}
 	if o.ASet && o.BSet {
+		// frames that were still in flight from the last observation arrive now - under the keys of THEN. If the keys
+		// have been set up again since, they do not unseal and must not matter.
+		for _, st := range p.stale {
+			if g, err := st.to.Builder.ParseFrame(append([]byte(nil), st.raw...), nil, 0); err == nil {
+				if ys := st.to.St.GetSession(st.from.ID.IP); ys != nil {
+					_ = g.Unseal(ys)
+				}
+			}
+		}
+		p.stale = nil
 		o.A2B, o.B2A = true, true // a direction that is not tried is not judged
 		for k := 0; k < 3; k++ {  // a short flow, not a single frame: what the receiver remembers of earlier traffic matters
 			if p.dirs != 2 {
@@ -291,8 +302,33 @@ func (p *pair) observe() obs {
 				o.B2A = try(b, a) && o.B2A
 			}
 		}
+		// a longer one-way burst of which the last frame stays in flight until the next observation (the others are lost)
+		burst := func(x, y *world.Node) {
+			var last []byte
+			for k := 0; k < 70; k++ {
+				f, err := sealTraffic(x, y)
+				if err != nil {
+					return
+				}
+				raw, _ := f.FrameDataWithMargins(0, 0)
+				last = append(last[:0], raw...)
+				f.ReturnToPool()
+			}
+			p.stale = append(p.stale, staleFrame{from: x, to: y, raw: last})
+		}
+		if p.dirs == 1 && o.A2B {
+			burst(a, b)
+		}
+		if p.dirs == 2 && o.B2A {
+			burst(b, a)
+		}
 	}
 	return o
+}
+
+type staleFrame struct {
+	from, to *world.Node
+	raw      []byte
 }
 
 // createdBy derives the model message a step puts in flight from the next state's net minus the previous one.
